@@ -218,14 +218,19 @@ def main():
     build_govc()
     if args.overlay:
         EXTRA_OVERLAY.update(json.load(open(args.overlay)))
+        args.no_evidence = True  # a self-test run on mutated sources never overwrites the evidence of the real tree
     outdir = args.out or os.path.join(VERIF, "out", pid)
     shutil.rmtree(outdir, ignore_errors=True)
     os.makedirs(outdir, exist_ok=True)
-    timeout = 10 if args.tier == "quick" else 60
+    # per-VC solver limits: on the unchanged tree every obligation is decided in
+    # < 5 s, so the quick limit leaves a 4x margin for a loaded machine; cover
+    # (vacuity) queries that stay inconclusive are not alarms and get less
+    timeout = 20 if args.tier == "quick" else 60
+    cover_timeout = 8 if args.tier == "quick" else 30
     res_json = os.path.join(outdir, "result.json")
     cmd = [GOVC, "verify", "-repo", REPO, "-pkgs", ",".join(cfg["pkgs"]), "-prop", pid, "-tier", args.tier,
            "-out", os.path.join(outdir, "vc"), "-json", res_json, "-timeout", str(timeout),
-           "-assumed", os.path.join(VERIF, "contracts", "assumed"), "-workers", "5"]
+           "-cover-timeout", str(cover_timeout), "-assumed", os.path.join(VERIF, "contracts", "assumed"), "-workers", "5"]
     if args.overlay:
         cmd += ["-overlay", args.overlay]
     import signal
